@@ -317,14 +317,45 @@ pub fn decompress(
                     ))),
                 ))
             })? as usize;
+            // The decompressor allocates the announced size up front. LZ4 cannot expand
+            // its input by more than a factor of 255, so a prefix announcing more than
+            // that is corrupted; reject it instead of allocating up to 4 GiB.
+            if uncomp_len > max_decompressed_len(comp_body.len(), 255) {
+                return Err(FrameBodyExtensionsParseError::Lz4DecompressError(Arc::new(
+                    LowLevelDeserializationError::IoError(Arc::new(std::io::Error::new(
+                        std::io::ErrorKind::InvalidData,
+                        "lz4 frame body announces an impossibly large uncompressed size",
+                    ))),
+                )));
+            }
             let uncomp_body = lz4_flex::decompress(comp_body, uncomp_len)
                 .map_err(|err| FrameBodyExtensionsParseError::Lz4DecompressError(Arc::new(err)))?;
             Ok(uncomp_body)
         }
-        Compression::Snappy => snap::raw::Decoder::new()
-            .decompress_vec(comp_body)
-            .map_err(|err| FrameBodyExtensionsParseError::SnapDecompressError(Arc::new(err))),
+        Compression::Snappy => {
+            // Same for Snappy, whose elements expand by less than a factor of 22
+            // (a 3-byte copy element yields at most 64 bytes).
+            let uncomp_len = snap::raw::decompress_len(comp_body)
+                .map_err(|err| FrameBodyExtensionsParseError::SnapDecompressError(Arc::new(err)))?;
+            if uncomp_len > max_decompressed_len(comp_body.len(), 32) {
+                return Err(FrameBodyExtensionsParseError::SnapDecompressError(Arc::new(
+                    snap::Error::TooBig {
+                        given: uncomp_len as u64,
+                        max: max_decompressed_len(comp_body.len(), 32) as u64,
+                    },
+                )));
+            }
+            snap::raw::Decoder::new()
+                .decompress_vec(comp_body)
+                .map_err(|err| FrameBodyExtensionsParseError::SnapDecompressError(Arc::new(err)))
+        }
     }
+}
+
+/// Upper bound for the decompressed size of `compressed_len` bytes, given the
+/// maximum expansion factor of the algorithm (plus some slack for tiny inputs).
+fn max_decompressed_len(compressed_len: usize, max_ratio: usize) -> usize {
+    compressed_len.saturating_mul(max_ratio).saturating_add(64)
 }
 
 #[cfg(test)]
